@@ -121,8 +121,7 @@ def main():
         "not_applicable": na,
         "notes": "Every check: (1) make + re-check Props/Cxx.v, Print Assumptions allow-list, forbidden-token grep; (2) rebuild harness from /repo working tree with hooks on; (3) correspondence + direct property oracles on the implementation's outputs; (4) evidence. See DESIGN.md.",
     }
-    if not na:
-        m.pop("not_applicable")
+    # all twenty properties are claimed: the list is written out empty rather than left out
     with open(os.path.join(VERIF, "MANIFEST.json"), "w") as f:
         json.dump(m, f, indent=1)
 
